@@ -575,3 +575,41 @@ Proof.
       * left; right. exists q. split; [apply mem_path_In; exact H|]. rewrite Hc, Hd. reflexivity.
       * right. exists (CreateDir q). split; [exact H|]. rewrite Hc, Hd. reflexivity.
 Qed.
+
+(* ---- the durable-entry set after sync_dir ------------------------------------------------------- *)
+(* any-kind toggle of the entry q *)
+Definition ex_step (q : path) (b : bool) (o : pop) : bool :=
+  match o with
+  | CreateFile p | CreateDir p => if path_eqb p q then true else b
+  | PRemoveFile p | PRemoveDir p => if path_eqb p q then false else b
+  | _ => b
+  end.
+
+Lemma fold_sd_synced d : forall l st,
+  synced (fold_left (fun st o => apply_op (set_synced st (mark_synced d (synced st) o)) o) l st) =
+  fold_left (mark_synced d) l (synced st).
+Proof.
+  induction l as [|o l IH]; intro st; cbn [fold_left]; [reflexivity|].
+  rewrite IH. f_equal.
+  destruct (apply_op_frame (set_synced st (mark_synced d (synced st) o)) o) as (_ & A & _). rewrite A. reflexivity.
+Qed.
+
+Definition not_rmdir (o : pop) : bool := match o with PRemoveDir _ => false | _ => true end.
+
+Lemma mem_mark_synced d q l o : not_rename o = true -> not_rmdir o = true -> is_entry_op d o = true ->
+  mem_path q (mark_synced d l o) = ex_step q (mem_path q l) o.
+Proof.
+  intros Hr Hd He. destruct o; cbn [mark_synced ex_step is_entry_op not_rename not_rmdir] in *; try discriminate.
+  - rewrite He. rewrite mem_padd, (path_eqb_sym q p). destruct (path_eqb p q); [apply orb_true_r|apply orb_false_r].
+  - rewrite He. rewrite mem_padd, (path_eqb_sym q p). destruct (path_eqb p q); [apply orb_true_r|apply orb_false_r].
+  - rewrite He. rewrite mem_pdel, (path_eqb_sym q p). destruct (path_eqb p q); cbn; [apply andb_false_r|apply andb_true_r].
+Qed.
+
+Lemma fold_mark_synced d q : forall l sy,
+  (forall o, In o l -> not_rename o = true /\ not_rmdir o = true /\ is_entry_op d o = true) ->
+  mem_path q (fold_left (mark_synced d) l sy) = fold_left (ex_step q) l (mem_path q sy).
+Proof.
+  induction l as [|o l IH]; intros sy H; cbn [fold_left]; [reflexivity|].
+  rewrite IH by (intros; apply H; right; assumption).
+  destruct (H o (or_introl eq_refl)) as (A & B & C). rewrite mem_mark_synced by assumption. reflexivity.
+Qed.
